@@ -675,6 +675,12 @@ func ruleProtectedFirst(c *Ctx) {
 						loopTests++
 						return loopback
 					}
+				case isMethod(f, "net", "IP", "IsLoopback") || isMethod(f, "net/netip", "Addr", "IsLoopback"):
+					// the peer test in its parsed form (possibly inside a helper, which is evaluated under the
+					// same scenario: a helper that answers 'local' for a peer it has no loop-back evidence for
+					// — an address it cannot parse — does not evaluate to 'remote' and the read stays reachable)
+					loopTests++
+					return loopback
 				case isMethod(f, modPath+"/internal/server", "Server", "isProtected"):
 					return protected
 				}
@@ -687,7 +693,7 @@ func ruleProtectedFirst(c *Ctx) {
 	open, _ := c.scenReach(fg, lit.Body, scen('0', '0'), Loc{}, isRead, nil)
 	switch {
 	case loopTests == 0:
-		c.und("protected-before-read", lit.Pos(), "no loop-back prefix test (strings.HasPrefix(…, \"127.…\" / \"[::1]…\")) found on the way to conn.Read: the form of the peer test is not one this rule evaluates")
+		c.und("protected-before-read", lit.Pos(), "no loop-back test (strings.HasPrefix(…, \"127.…\" / \"[::1]…\"), net.IP.IsLoopback) found on the way to conn.Read: the form of the peer test is not one this rule evaluates")
 	case !local || !open:
 		c.und("protected-before-read", lit.Pos(), "conn.Read is not reachable even for a loop-back peer or an unprotected server: the connection closure was not understood")
 	default:
